@@ -525,12 +525,14 @@ def run_job(job):
         aftermath(s, tgt, job.get("steps", 40))
         code = next((e["code"] for e in s.log[start:] if e["k"] == "ev" and e["ep"] == tgt and e["cls"] == "ConnectionTerminated"), -1)
         hi, lo = limbs(code) if code >= 0 else (0, 0)
-        post = {"closed": closed, "sent": sent, "events": events, "accepted": bool(ctx.accepted), "moved": mid != pre,
+        code = int(code)
+        moved = any(mid[k] != pre[k] for k in ("tls", "hc", "hcf"))
+        post = {"closed": closed, "sent": sent, "events": events, "accepted": bool(ctx.accepted), "moved": moved,
                 "term": bool(s.terminated[tgt]), "code_hi": hi, "code_lo": lo, "has_code": code >= 0, "raised0": raised0}
         init = {"ev": "init", "role": role, "phase": phase, "lvl": cls["lvl"], "name": cls["name"], "ep": cls["ep"], "sig": job["sig"],
                 "qs": pre["qs"], "cp": pre["cp"], "tls": pre["tls"], "hc": pre["hc"], "hcf": pre["hcf"]}
         lines = project(s, start, init, post)
-        summary = {"outcome": "Close" if closed else ("Progress" if (ctx.accepted or mid != pre or events or sent) else "Ignored"),
+        summary = {"outcome": "Close" if closed else ("Progress" if (ctx.accepted or moved or events or (sent and phase not in ("closepending", "hsclosepending"))) else "Ignored"),
                    "code": code, "hostile": ctx.hostile_dgrams, "raised": [list(r) for r in s.raised[raised0:][:3]],
                    "mid": mid, "n": len(lines)}
         return {"lines": lines, "summary": summary}
